@@ -104,6 +104,24 @@ theorem C13_refuses (fuel lf : Nat) (cs : List SysComp) (M : Rat) (ω : Oracle) 
     sysGenerator fuel lf false cs M ω = .error .notGenerable := by
   simp [sysGenerator]
 
+/-- **C13 (refusal, component)**: one component that is not generable (a stochastic object without distribution, a negative
+weight) makes the whole system refuse, whatever the other components are -/
+theorem C13_refuses_component (fuel lf : Nat) (estim : Bool) (cs : List SysComp) (M : Rat) (ω : Oracle)
+    (c : SysComp) (hc : c ∈ cs) (hg : c.generable = false) :
+    sysGenerable estim cs = false ∧ sysGenerator fuel lf (sysGenerable estim cs) cs M ω = .error .notGenerable := by
+  have h : sysGenerable estim cs = false := by
+    unfold sysGenerable
+    have : cs.all (·.generable) = false := by
+      rw [List.all_eq_false]
+      exact ⟨c, hc, by simp [hg]⟩
+    simp [this]
+  exact ⟨h, by rw [h]; exact C13_refuses fuel lf cs M ω⟩
+
+/-- a failed mass estimate (C12) makes the system refuse as well -/
+theorem C13_refuses_estimate (fuel lf : Nat) (cs : List SysComp) (M : Rat) (ω : Oracle) :
+    sysGenerator fuel lf (sysGenerable false cs) cs M ω = .error .notGenerable := by
+  simp [sysGenerable, sysGenerator]
+
 /-- **C13 (single molecule)**: `System.generate` returns a fully generated instance of the picked component, or an error -/
 theorem C13_single (fuel : Nat) (cs : List SysComp) (ω : Oracle) (x : Member) (t : Trace) (ω' : Oracle)
     (h : sysGenerate fuel cs ω = .ok (x, t, ω')) : IsMember fuel cs x ∧ (cs.getD x.1 default).generable = true := by
